@@ -341,11 +341,22 @@ def run(prog, check):
     # the flag is cleared at the start of each sweep and only raised in handlers: its post-loop value is the last sweep's
     # ---- R6: the tolerance the sweep stops at is the submitted one -------------------------------------------------
     n6 = 0
-    for fn in prog.all_functions():
-        if fn.cls is not None and fn.cls.name == 'EquationParser':
+    from ..inline import judged_at_callers as _jac, flatten as _flat
+    cands6 = [fn for fn in prog.all_functions() if not (fn.cls is not None and fn.cls.name == 'EquationParser') and
+              '/deprecated/' not in fn.module.rel and '/gl_book/' not in fn.module.rel]
+    at_callers6 = _jac(prog, [fn for fn in cands6 if fn.cls is not None and fn.cls is sw.f.cls])
+    seen6 = set()
+    for fn_raw in prog.all_functions():
+        if fn_raw.cls is not None and fn_raw.cls.name == 'EquationParser':
             continue
+        if fn_raw.key in at_callers6:
+            continue      # a private helper is read where it is inlined (its `self` may be a working copy there)
+        fn = _flat(prog, fn_raw) if (fn_raw.cls is not None and fn_raw.cls is sw.f.cls) else fn_raw
         for a in ast.walk(fn.node):
             if isinstance(a, ast.Assign) and isinstance(a.targets[0], ast.Attribute) and a.targets[0].attr in ('Err_Tolerance', 'ParameterErrorTolerance'):
+                if (fn.module.rel, a.lineno, a.col_offset) in seen6:
+                    continue
+                seen6.add((fn.module.rel, a.lineno, a.col_offset))
                 root = a.targets[0].value
                 while isinstance(root, ast.Attribute):
                     root = root.value
